@@ -31,7 +31,8 @@ def gen_ext(rng):
         items = []
         for k in KEYS[1:]:
             if rng.random() < 0.45:
-                items.append((k, rng.randint(1, 99)))
+                # one value in five is falsy (0, 0.0, false, "", null, [], {}): settings such as volatility 0.0 or enabled false
+                items.append((k, rng.randint(1, 99) if rng.random() < 0.8 else rng.choice([0, 0.0, False, "", None, [], {}])))
         parent = None
         if shape == "chain" and i > 0:
             parent = names[i - 1]
@@ -268,8 +269,21 @@ def obj_lit(o):
 
 
 def _val(v):
+    """opaque values as integers for the model: parents' names, and distinct codes for the falsy values"""
+    if v is None:
+        return -1
+    if isinstance(v, bool):
+        return -2 if v is False else -7
+    if isinstance(v, float):
+        return -6 if v == 0.0 else 998
     if isinstance(v, str):
+        if v == "":
+            return -3
         return 100 + int(v[1:]) if v.startswith("n") else 999
+    if isinstance(v, list):
+        return -4
+    if isinstance(v, dict):
+        return -5
     return v
 
 
